@@ -72,13 +72,13 @@ PROPS["C05"] = {
 
 PROPS["C06"] = {
     "kani": ["c06_face", "dec_sgr", "dec_payload", "c05_encoder"],
-    "verus": [],
+    "verus": ["ttywriter"],
     "technique": "Kani/CBMC full-domain harnesses: attribute set algebra, FaceModify::apply against SGR semantics, sgr_color; sgr_face against a reference SGR interpreter on parameter templates (bounded)",
     "level_text": "Proved (Kani, complete): FaceAttrs pack/unpack/insert/remove/contains and all six bit operators agree with the (underline style, 5 flags) view for all pairs; "
                   "FaceModify::apply(m, f) sets/clears every colour and attribute independently and reset restores the default face for every m x f; sgr_color decodes every colour form and consumes exactly its own parameters; "
                   "sgr_face equals a reference SGR interpreter (later overrides earlier, 0/empty resets, colon forms, unknown codes ignored) for every numeric value on "
                   "~45 parameter templates (bounded stand-ins); FaceModify without colours is encoded with exactly the standard codes on fixed cases (bounded stand-ins). Encoder->decoder round trip of colours passes through core::fmt and the DFA: NOT decided end to end.",
-    "level_note": "Assumed: TTYCellWriter/TTYCommandDecoder (DFA), core::fmt rendering of colour components; SGR codes FaceModify cannot express (7/27, 39/49/59, 2/8) and the ambiguous 21 are outside the compared domain.",
+    "level_note": "Assumed: TTYCommandDecoder (DFA; in unit ttywriter any decoder with a ghost log of what it decoded), TerminalCommand reduced to its three drawing variants plus a catch-all there (N18), core::fmt rendering of colour components; SGR codes FaceModify cannot express (7/27, 39/49/59, 2/8) and the ambiguous 21 are outside the compared domain.",
     "assumptions": [
         "reference SGR interpreter transcribed from ECMA-48/xterm/kitty; inputs it marks undefined (codes FaceModify cannot express, 21, malformed colour forms) are not compared",
         "semicolon-form extended colours inside sgr_face are not run through CBMC (15 min timeouts); their content is covered on sgr_color directly",
@@ -242,7 +242,7 @@ PROPS["C20"] = {
 
 PROPS["C09"] = {
     "kani": ["c09_text"],
-    "verus": ["celllayout", "putcell", "utf8stream", "textlayout"],
+    "verus": ["celllayout", "putcell", "utf8stream", "textlayout", "ttywriter"],
     "technique": "Verus contracts on the single layout routine Cell::layout, on TerminalWriter::put_cell over the ghost window model of surfaces shared with C07 (frame condition), and on the streaming Utf8Decoder::decode against a byte-wise fold with chunk-independence lemmas; all extracted from the real code",
     "level_text": "Proved (Verus, every cell size, width, wrap mode, cursor and tracked size): Cell::layout keeps the writer invariant cursor.col <= max_width and size.width <= max_width, the tracked size is a "
                   "monotonically growing bounding box that covers every placed cell, a cell is placed at the cursor when it fits, else (wrapping only) at column 0 of the next row (r == place(..)), and nothing is placed exactly for "
@@ -260,7 +260,7 @@ PROPS["C09"] = {
                   "theorem_in_box: every cell that gets a position lies inside the measured size. Together with put_cell's contract: rendering into a surface of the size the layout reported places every positioned cell, none outside. "
                   "Text::layout / Text::render (Kani, bounded stand-ins on a two-cell text; Cell::layout resp. TerminalWriter::put_cell - both under Verus contract - replaced by recorders): layout calls Cell::layout once per cell, in order, "
                   "with the constraint's maximum width and the text's own wrap flag and reports the measured size clamped to the constraint; render writes every cell once, in order, through a writer carrying the same wrap flag. "
-                  "The glyph fallback path of put_cell, Cell::size (unicode-width / glyph / image geometry), the generic Utf8CellWriter loop, the escape-sequence writer (TTYCellWriter) and "
+                  "The glyph fallback path of put_cell, Cell::size (unicode-width / glyph / image geometry), the generic Utf8CellWriter loop, the escape-sequence automaton behind TTYCellWriter (its forwarding loop is proved in unit ttywriter for any decoder that makes progress) and "
                   "Text::layout/render agreement ('every printable cell exactly once in reading order') are NOT decided.",
     "level_note": "Cell::size is an uninterpreted function; Face/Image/Glyph/ViewContext/Utf8Decoder-in-writer are opaque stand-ins (N18); the glyph-fallback prelude of put_cell is cut off by precondition (N16); SurfaceMutView operations are used through the contracts proved in unit surface.",
     "assumptions": [
